@@ -251,6 +251,26 @@ def agree(real, want, tol=1e-7):            # noqa: F811
     return _old_agree(real, want, tol)
 
 
+def order_battery():
+    """Run the battery under several hash seeds / spelling orders; digests must agree."""
+    import subprocess
+    here = os.path.dirname(os.path.abspath(__file__))
+    digests = {}
+    for seed in ("0", "1", "2", "3", "4", "5", "6", "7"):
+        for order in ("0", "1"):
+            env = dict(os.environ, PYTHONHASHSEED=seed, BATTERY_ORDER=order)
+            p = subprocess.run([sys.executable, os.path.join(here, "order_battery.py")], capture_output=True, text=True, env=env)
+            digests[(seed, order)] = (p.stdout.strip() or p.stderr.strip()[-300:])
+    distinct = sorted(set(digests.values()))
+    for k, v in sorted(digests.items()):
+        print(f"  PYTHONHASHSEED={k[0]} spelling-order={k[1]}: {v[:80]}")
+    if len(distinct) > 1:
+        print("RESULT: violation reproduced on the real code (answers differ across hash seeds / spelling orders)")
+        return 1
+    print("RESULT: no-failing-input-found")
+    return 0
+
+
 def main(path):
     with open(path) as fh:
         doc = json.load(fh)
@@ -260,6 +280,8 @@ def main(path):
         print("no concrete scenario could be built from the counter-model; solver output is in the file")
         print("RESULT: no-failing-input-found")
         return 0
+    if sc.get("kind") == "order_battery":
+        return order_battery()
     obs = observe(sc)
     bad = [o for o in obs if not o["ok"]]
     for o in obs:
